@@ -1166,6 +1166,52 @@ class Runner:
                 if diffs:
                     self.ctx.violation("%s:%s" % (name, label), "re-framed input decodes to other values than the plain frame: %s" % (diffs[:2],), case)
 
+
+    def chapter_then_frames_case(self):
+        """a tag whose frames follow each other under TAG-level unsynchronisation (v2.4 header flag 0x80 without
+        per-frame flags; v2.3 whole-tag): every frame decodes like in the plain tag, whatever comes before it -
+        in particular behind a CHAP/CTOC frame, whose embedded frames are read with a header of their own"""
+        F = self.Frames
+        chap = F["CHAP"](element_id="c", start_time=0, end_time=1, start_offset=2, end_offset=3,
+                         sub_frames=[F["TIT2"](encoding=1, text=["\u00ffsub"])])
+        ctoc = F["CTOC"](element_id="t", flags=3, child_element_ids=["c"], sub_frames=[F["TIT2"](encoding=0, text=["x"])])
+        others = [F["PRIV"](owner="o", data=b"\xff\x00\x01\xff\xe0\xff"), F["TIT2"](encoding=1, text=["\u00ff\u0100 bom"]),
+                  F["APIC"](encoding=0, mime="image/png", type=3, desc="d", data=b"\x89PNG\xff\x00\xff\x00\x00")]
+        import itertools
+        for ch in (chap, ctoc):
+            for perm in itertools.permutations([ch] + others[:2] if self.ctx.quick else [ch] + others):
+                frames = list(perm)
+                for version in (4, 3):
+                    # every frame rendered on its own, then framed by hand IN THIS ORDER (the writer would sort them)
+                    parsed = []
+                    for fr1 in frames:
+                        d1 = self.save([fr1], version, None, pad0=True)
+                        parsed.append(parse_tag(d1)[1][0])
+                    if version == 4:
+                        data = tag24(b"".join(frame24(fid.encode() if isinstance(fid, str) else fid, b, 0) for fid, fl, b in parsed))
+                        # v2.4 tag-level flag: every frame is unsynchronised individually (the flag says all are)
+                        fb = b"".join(frame24(fid.encode() if isinstance(fid, str) else fid, ref_unsynch(b), 0) for fid, fl, b in parsed)
+                        tag = tag24(fb, 0x80)
+                    else:
+                        plain_body = b"".join(frame23(fid.encode() if isinstance(fid, str) else fid, b) for fid, fl, b in parsed)
+                        data = tag23(plain_body)
+                        tag = tag23(ref_unsynch(plain_body), 0x80)
+                    k0, plain = timed(lambda: self.load(data, False), 5)
+                    k1, got = timed(lambda: self.load(tag, False), 5)
+                    label = "v2.%d-tag-unsynchronised-multi" % version
+                    self.ctx.case(key=(type(ch).__name__, label, tuple(type(f).__name__ for f in frames)), nontrivial=True)
+                    self.ctx.hist["multi-unsynch:" + label] += 1
+                    case = {"frames": [repr(f)[:120] for f in frames], "framing": label, "tag": hx(tag[:600])}
+                    if k0 != "ok" or k1 != "ok":
+                        self.ctx.violation("multi:%s" % label, "loading failed: %r / %r" % (plain if k0 != "ok" else "ok", got if k1 != "ok" else "ok"), case)
+                        continue
+                    a = {kk: repr(v) for kk, v in plain.items()}
+                    b = {kk: repr(v) for kk, v in got.items()}
+                    if a != b:
+                        diff = sorted(kk for kk in set(a) | set(b) if a.get(kk) != b.get(kk))
+                        self.ctx.violation("multi:%s" % label, "frames %s decode differently in the unsynchronised tag: %s vs %s"
+                                           % (diff[:3], [a.get(kk, "-")[:80] for kk in diff[:2]], [b.get(kk, "-")[:80] for kk in diff[:2]]), case)
+
     def mixed_tag(self, n):
         """several frames in one tag (sorting, HashKeys, determine_bpi on real mixtures)"""
         ctx = self.ctx
@@ -1251,6 +1297,7 @@ class Runner:
         self.determine_bpi_case()
         self.zero_tail_cases()
         self.nested_unsynch_case()
+        self.chapter_then_frames_case()
         self.mixed_tag(ctx.budget(150, 1500))
         self.flush_model()
         ctx.extra["model_requests"] = ctx.traces_validated
